@@ -468,6 +468,24 @@ def bounded(b):
         ok, fr = b.guard("frequency/array", ["arange(128)", a4], lambda: m.frequency_to_midi_pitch(m.midi_pitch_to_frequency(arr, a4), a4))
         if ok:
             b.case("frequency/array", bool(np.array_equal(np.asarray(fr), arr)), ["arange(128)", a4], "array round trip differs")
+        # arrays of every numeric type a pitch or frequency column may have, asked twice: the same answer, and the caller's array as it was
+        for dt in ("float64", "float32", "int64", "int32", "int16"):
+            pa_ = np.array([21, 60, 69, 108, 127], dtype=dt)
+            keep = pa_.copy()
+            case_ = ["%s array" % dt, a4]
+            ok, f1 = b.guard("frequency/array", case_, lambda: np.array(m.midi_pitch_to_frequency(pa_, a4), dtype=float))
+            if not ok:
+                continue
+            ok, f2 = b.guard("frequency/array", case_, lambda: np.array(m.midi_pitch_to_frequency(pa_, a4), dtype=float))
+            want = np.array([a4 * 2 ** ((int(p) - 69) / 12) for p in keep])
+            b.case("frequency/array", ok and bool(np.array_equal(pa_, keep)) and bool(np.allclose(f1, want, rtol=1e-6)) and bool(np.allclose(f2, want, rtol=1e-6)), case_,
+                   "pitches %r (were %r); first answer %r, second %r, equal temperament %r" % (pa_.tolist(), keep.tolist(), np.round(f1, 3).tolist(), None if f2 is None else np.round(f2, 3).tolist(), np.round(want, 3).tolist()))
+            fa_ = np.array(want, dtype="float64" if dt.startswith("int") else dt)
+            keepf = fa_.copy()
+            ok, p1 = b.guard("frequency/array", case_, lambda: np.array(m.frequency_to_midi_pitch(fa_, a4)))
+            if ok:
+                b.case("frequency/array", bool(np.array_equal(fa_, keepf)) and [int(x) for x in np.asarray(p1).ravel()] == [int(x) for x in keep], case_,
+                       "frequencies -> pitches %r, expected %r; the caller's array %s" % (np.asarray(p1).tolist(), keep.tolist(), "unchanged" if np.array_equal(fa_, keepf) else "was overwritten"))
 
 
 def replay_case(clause, case):
